@@ -342,8 +342,12 @@ def yield_class_values_from_cache(cache: Dict[Type, IndexedCache], clazz: Type,
         cache[clazz].keys = list(assignment.keys())
     if not cache_keys:
         cache_keys = get_cache_keys_for_class_(cache, clazz)
-    for t in cache_keys:
-        yield from cache[t].retrieve(assignment, from_index=from_index)
+    # what the stores hold NOW, of all of them: an evaluation that ranges over the instances of a class also constructs
+    # instances (a rule head), and an instance it files in the store of a subclass whose turn has not come yet would be
+    # handed to it as if it had existed before.
+    found = [list(cache[t].retrieve(assignment, from_index=from_index)) for t in cache_keys]
+    for rows in found:
+        yield from rows
 
 
 def get_cache_keys_for_class_(cache: Dict[Type, IndexedCache], clazz: Type) -> List[Type]:
